@@ -72,5 +72,41 @@ theorem rt_cval_map (norm : String → String) (ks : List String) (ws : List Val
     rw [fromCtyL_cvals S t ws hty, seqAll_map_ok]
     rfl
 
+/-! ### what `uniformCv` (the side condition of the round trip) says -/
+
+theorem sameTyCv_inv (t : Ty) : ∀ (vs : List GoVal), sameTyCv t vs = true →
+    ∃ ws : List Value, vs = ws.map GoVal.cval ∧ ∀ w ∈ ws, w.ty = t
+  | [], _ => ⟨[], rfl, by simp⟩
+  | .cval w :: vs, h => by
+    simp only [sameTyCv, Bool.and_eq_true] at h
+    obtain ⟨ws, h1, h2⟩ := sameTyCv_inv t vs h.2
+    refine ⟨w :: ws, by simp [h1], ?_⟩
+    intro x hx
+    rcases List.mem_cons.mp hx with rfl | hx
+    · exact (Ty.same_iff _ _).mp h.1
+    · exact h2 x hx
+  | .int _ :: _, h | .flt _ :: _, h | .nan :: _, h | .str _ :: _, h | .bool _ :: _, h | .nilSlice :: _, h
+  | .slice _ :: _, h | .arr _ :: _, h | .nilMap :: _, h | .map _ _ :: _, h | .nilPtr :: _, h | .ptr _ :: _, h
+  | .struct _ _ :: _, h | .bigInt _ :: _, h | .bigFloat _ :: _, h | .cvalNil :: _, h => by simp [sameTyCv] at h
+
+theorem uniformCv_inv {E : GoTy} {vs : List GoVal} (h : uniformCv E vs = true) :
+    E = .cval ∧ (vs = [] ∨ ∃ (ws : List Value) (t : Ty), vs = ws.map GoVal.cval ∧ ws ≠ [] ∧ (∀ w ∈ ws, w.ty = t) ∧
+      isDynTy t = false ∧ Ty.equals t t = true) := by
+  cases E <;> try (simp [uniformCv] at h; done)
+  refine ⟨rfl, ?_⟩
+  cases vs with
+  | nil => exact Or.inl rfl
+  | cons v vs =>
+    right
+    cases v <;> try (simp [uniformCv] at h; done)
+    rename_i w
+    simp only [uniformCv, Bool.and_eq_true, Bool.not_eq_true'] at h
+    obtain ⟨ws, h1, h2⟩ := sameTyCv_inv w.ty vs h.2
+    refine ⟨w :: ws, w.ty, by simp [h1], by simp, ?_, h.1.1, h.1.2⟩
+    intro x hx
+    rcases List.mem_cons.mp hx with rfl | hx
+    · rfl
+    · exact h2 x hx
+
 end Gocty
 end CtyModel
